@@ -187,6 +187,11 @@ func RunC12(ctx *core.Ctx) *core.Violation {
 	} else {
 		data = genData(t, n, alphabet)
 	}
+	if t.Chance(1, 20) {
+		// a byte-order mark is ordinary data for a byte cursor
+		data = append([]byte{0xEF, 0xBB, 0xBF}, data...)
+		ctx.Count("probe_bom_prefix")
+	}
 	n = len(data)
 	m.n = n
 	spare := 0
